@@ -106,14 +106,15 @@ Definition string_codec (m : mode) : codec (list byte) :=
 (* ------------------------------------------------------------------ Option<V: Serialize> *)
 
 (* header: size of the body in elements (0 = absent); body: the value. load does NOT compare the size with
-   what it read (see the comment in serialize.rs) *)
+   what it read (see the comment in serialize.rs). Well-formed: the value's size is non-zero (the trait asks for
+   that) and its size in bytes fits in usize *)
 Definition option_codec {A} (c : codec A) : codec (option A) :=
   mkcodec (fun o => match o with None => le64 0 | Some x => le64 (c_size c x) ++ c_enc c x end)
           (fun s => let+ (n, r) := dec_elem s in
                     if n =? 0 then IoOk (None, r)
                     else let+ (x, r') := c_dec c r in IoOk (Some x, r'))
           (fun o => match o with None => 1 | Some x => 1 + c_size c x end)
-          (fun o => match o with None => True | Some x => c_wf c x /\ 0 < c_size c x < 2 ^ 64 end).
+          (fun o => match o with None => True | Some x => c_wf c x /\ 0 < c_size c x < 2 ^ 61 end).
 
 (* serialize::absent_option / absent_option_size *)
 Definition absent_option_enc : list byte := c_enc usize_codec 0.
